@@ -355,8 +355,9 @@ def encCell (enc : Attr → Nat) (c : Cell) : Nat × Nat := (c.ch, enc c.attr)
 
 The byte cursor `o` of the Rust code is the list suffix still to be read (`o + k > bytes.len()` is "fewer than `k`
 bytes left").  The result is the sequence of (character, attribute) pairs handed to `decode_char`/`set_char`, in
-order — `advance_pos` walks the cells row-major, so cell number `i` receives pair number `i`.  `none` = an index
-panic (`bytes[o]` at the end of the data); such streams are C02's business, the writer never produces one. -/
+order — `advance_pos` walks the cells row-major, so cell number `i` receives pair number `i`.  Since the C02 repair a
+run header that is the last byte of the data ends decoding like every other truncated run (`break`), so the result is
+always `some`; the `Option` is kept for the lemmas that were stated with it. -/
 
 /-- `Compression::Off` arm: `for _ in 0..repeat_counter { if o + 2 > bytes.len() { break; } … }` -/
 def rdOff : Nat → List Nat → List (Nat × Nat) → List (Nat × Nat) × List Nat
@@ -389,15 +390,15 @@ def readCompressedAux : Nat → List Nat → List (Nat × Nat) → Option (List 
       readCompressedAux fuel r.2 r.1
     else if t = Xb.compChar then
       match bs with
-      | [] => none                                   -- `bytes[o]` out of range
+      | [] => some acc                               -- "Read compression block beyond EOF": `break`
       | c :: bs' => let r := rdChr c n bs' acc; readCompressedAux fuel r.2 r.1
     else if t = Xb.compAttr then
       match bs with
-      | [] => none
+      | [] => some acc
       | a :: bs' => let r := rdAtt a n bs' acc; readCompressedAux fuel r.2 r.1
     else
       match bs with
-      | [] => none
+      | [] => some acc
       | [_] => some acc                              -- "Read compression block beyond EOF": `break` leaves the loop
       | c :: a :: bs' => readCompressedAux fuel bs' (acc ++ List.replicate n (c, a))
 
